@@ -62,6 +62,9 @@ class Scheduler:
 def make_input(rng, d, chunk, max_wf, kind=None, ns=None):
     kind = kind or str(rng.choice(["3B2", "NP2.4"]))
     ns = ns or int(rng.integers(12000, 30000))
+    if rng.random() < 0.5:
+        # the recording ends a little past a chunk boundary: the trailing sliver is shorter than one waveform, a little longer than the post-peak part
+        ns = (ns // chunk) * chunk + int(rng.integers(LEN - OFF + 1, LEN + 1))
     rec = G.make(rng, kind=kind, ns=ns, gains=G.random_gains(rng), content="random", nsync=int(rng.choice([1, 1, 1, 0])))      # also recordings saved without the sync channel
     b = G.write(rec, Path(d) / "rec")
     if rng.random() < 0.4:
@@ -84,7 +87,7 @@ def make_input(rng, d, chunk, max_wf, kind=None, ns=None):
             t = np.r_[t, rng.integers(0, lo + 1, int(rng.integers(0, 3))), rng.integers(hi, ns, int(rng.integers(0, 3)))]      # + some invalid
         t = np.unique(np.r_[t, rng.choice(special, int(rng.integers(2, 8)))].astype(np.int64))
         if mode == "few":       # spikes exactly ON the margins are not 'farther than the margins': they must not be counted nor extracted
-            t = np.unique(np.r_[t, lo, hi])
+            t = np.unique(np.r_[t, lo, hi, hi - 1, hi - int(rng.integers(2, 40)), lo + 1])      # ... the very first and the very last valid samples are
         pk = rng.integers(0, rec.n, t.size)
         pk[rng.random(t.size) < 0.15] = rng.choice([0, rec.n - 1])
         if u % 3 == 1 and t.size >= 2:
